@@ -311,6 +311,83 @@ def ob_effects():
     return [Result('C14/fold/effects-preserved', FAILED if bad else DISCHARGED, 'enum', time.time() - t0, (), det)]
 
 
+def ob_cast_chains(w):
+    """casts of *non-constant* expressions: for every chain of up to three casts over {int, byte, bool} starting from a variable of each of these
+    types, the tree the real Expression.cast builds denotes the composition of the documented conversions (README "Types": int->byte keeps the low
+    8 bits, ->bool is `!= 0`, byte/bool->int zero-extends) for every value of the variable -- so the run-time twin of a folded cast chain is the
+    same function the literal casts fold (C14), whatever simplification cast() applies"""
+    import itertools
+    ast, operators, expressions, SPAN, TCE = _mods()
+    from hidc.ast import DataType as DT
+    t0 = time.time(); bad = []; n = 0
+    M = 1 << (8 * w)
+    x = z3.Int('x')
+    rng = {DT.INT: z3.And(x >= 0, x < M), DT.BYTE: z3.And(x >= 0, x < 256), DT.BOOL: z3.And(x >= 0, x <= 1)}
+
+    def conv(v, a, b):
+        if a == b: return v
+        if b == DT.BOOL: return z3.If(v != 0, z3.IntVal(1), z3.IntVal(0))
+        if b == DT.BYTE: return v % 256 if a == DT.INT else v
+        return v            # byte/bool -> int: zero extension
+
+    def ev(tree, leaf):
+        if tree is leaf: return x
+        if isinstance(tree, ast.IntToByte): return ev(tree.expr, leaf) % 256
+        if isinstance(tree, ast.IntToBool): return z3.If(ev(tree.expr, leaf) != 0, z3.IntVal(1), z3.IntVal(0))
+        if isinstance(tree, (ast.ByteToInt, ast.BoolToByte)): return ev(tree.expr, leaf)
+        raise ValueError(f'unexpected node {type(tree).__name__} in a cast chain')
+    types = (DT.INT, DT.BYTE, DT.BOOL)
+    for t in types:
+        for L_ in (1, 2, 3):
+            for chain in itertools.product(types, repeat=L_):
+                n += 1
+                leaf = ast.VariableLookup(ast.Variable('v', t, False), SPAN)
+                tree = leaf; want = x; cur = t
+                try:
+                    for t2 in chain:
+                        tree = tree.cast(t2); want = conv(want, cur, t2); cur = t2
+                    got = ev(tree, leaf)
+                    if tree.type != cur:
+                        bad.append({'chain': f'{t} -> ' + ' -> '.join(map(str, chain)), 'problem': f'result type {tree.type}'}); continue
+                except (TCE, ValueError) as e:
+                    bad.append({'chain': f'{t} -> ' + ' -> '.join(map(str, chain)), 'raises': repr(e)}); continue
+                verdict, model = prove([rng[t]], got == want)
+                if verdict != 'proved':
+                    bad.append({'chain': f'v:{t} is ' + ' is '.join(map(str, chain)), 'tree': repr(tree)[:160].replace('Span', ''), 'value_of_v': model[x].as_long() if verdict == 'cex' and model[x] is not None else None,
+                                'verdict': verdict})
+    det = {'formula': 'forall v: value(tree built by the real cast chain) == conv_n(...conv_1(v))  (int->byte: mod 256; ->bool: != 0; widening: identity)', 'domain': n,
+           'functions': ['hidc.ast.expressions.Expression.cast', 'hidc.ast.expressions.TypeCast.cast']}
+    if bad:
+        rep = {'reproduced': None}
+        w0 = next((b for b in bad if b.get('value_of_v') is not None), None)
+        if w0:
+            from hidv.sphinx import svm
+            chain = w0['chain']
+            t_src = chain.split(':')[1].split(' ')[0]
+            expr = '(' + 'v is '.join(['', '']) + ')' if False else None
+            casts = chain.split(' is ')[1:]
+            e = 'v'
+            for c_ in casts: e = f'({e} is {c_})'
+            last = casts[-1]
+            show = {'int': f'write({e});', 'byte': f'write({e} is int);', 'bool': f'write({e});'}[last]
+            decl = {'int': 'int v = k;', 'byte': 'byte v = k is byte;', 'bool': 'bool v = k is bool;'}[t_src]
+            src = f'empty @is_you(int k) {{ {decl} {show} }}'
+            vv = w0['value_of_v']
+            xv = z3.IntVal(vv); cur = {'int': DT.INT, 'byte': DT.BYTE, 'bool': DT.BOOL}[t_src]; val = xv
+            for c_ in casts:
+                t2 = {'int': DT.INT, 'byte': DT.BYTE, 'bool': DT.BOOL}[c_]; val = conv(val, cur, t2); cur = t2
+            val = z3.simplify(val).as_long()
+            wanttxt = ('true' if val else 'false') if last == 'bool' else str(val if val < M // 2 else val - M)
+            try:
+                res, vm = svm.run_hid(src, args=[str(vv)], word_size=w)
+                rep = {'reproduced': vm.out.decode('latin1') != wanttxt, 'how': 'hidc-compiled program on hidv.sphinx.svm', 'program': src, 'argument': vv,
+                       'printed': vm.out.decode('latin1'), 'documented': wanttxt}
+            except Exception as ex:
+                rep = {'reproduced': None, 'how': f'witness did not run: {ex!r}', 'program': src}
+        det.update(model=bad[:5], replay=rep)
+    return [Result(f'C14/cast-chains/w{w}/non-constant', FAILED if bad else DISCHARGED, 'enum+z3', time.time() - t0, (), det)]
+
+
 def walk(tree):
     import dataclasses as dc
     yield tree
@@ -326,6 +403,8 @@ def walk(tree):
 
 def tasks(tier):
     out = [task(MOD, 'ob_effects', ('C14', 'C01'), label='py/fold/effects', cost=1)]
+    for w in ((2,) if tier == 'quick' else (2, 3, 4)):
+        out.append(task(MOD, 'ob_cast_chains', ('C14', 'C09'), label=f'py/fold/cast-chains/w{w}', w=w, cost=1))
     widths = (2,) if tier == 'quick' else (2, 3, 4)
     for w in widths:
         for cls in RUNTIME:
